@@ -28,7 +28,7 @@ ASSUMPTIONS = [
     "a line holding a single token longer than the width cannot fit and is exempt (as the property says)",
 ]
 ANCHORS = ["dagrt.codegen.utils:wrap_line_base"]
-MIN_NONTRIVIAL = {"quick": 5000, "thorough": 150000}
+MIN_NONTRIVIAL = {"quick": 10000, "thorough": 120000}
 REQUIRED_COUNTERS = {
     "quick": ["wrap_contract_evaluations_python", "wrap_contract_evaluations_fortran",
               "python_ast_compared", "generator_lines_python", "generator_lines_fortran",
@@ -40,9 +40,10 @@ SHARD_TIMEOUT = {"quick": 900, "thorough": 3000}
 
 
 def plan(tier, seed):
-    per = 700 if tier == "quick" else 16000
+    per = 1500 if tier == "quick" else 16000
     sh = [{"kind": "tokens", "seed": f"C20:{seed}:{k}", "count": per} for k in range(14)]
-    sh.append({"kind": "generators", "seed": f"C20:{seed}:gen"})
+    for k in range(2 if tier == "quick" else 8):
+        sh.append({"kind": "generators", "seed": f"C20:{seed}:gen{k}", "nprog": 40 if tier == "quick" else 150})
     nf = 1 if tier == "quick" else 6
     for k in range(nf):
         sh.append({"kind": "fortran", "seed": f"C20:{seed}:f{k}", "count": 120 if tier == "quick" else 300})
@@ -52,7 +53,7 @@ def plan(tier, seed):
 IDENTS = ["x", "y1", "self.global_state_y", "local_tmp_0", "dagrt_state%dagrt_state_y", "a", "bb",
           "averyveryverylongidentifier_that_goes_on_and_on_0123456789", "f", "numpy"]
 OPS = ["+", "-", "*", "/", "**"]
-STRS = ["'a b'", "'two  spaces'", "'failed to allocate  x'", "''", "\"dq string\"", "'x'",
+STRS = ["\"can't be reduced any further\"", "'value of \"dt\" is too small'", "'a b'", "'two  spaces'", "'failed to allocate  x'", "''", "\"dq string\"", "'x'",
         "'a very long string literal that is certainly wider than a narrow line width allows'"]
 
 
@@ -270,6 +271,30 @@ def run_generators(shard, rec):
                   rec.counters.get("wrap_contract_evaluations_python", 0) - before)
         mon.flush(rec, context="generator:selfdep")
         rec.case(["generator-program", "selfdep"])
+        # every line the two real generators emit for G_prog workloads (the C01 / C03 corpora)
+        import random as _r
+        from vf import ftn, prog
+        rng = _r.Random(shard["seed"])
+        for i in range(shard.get("nprog", 40)):
+            script = prog.Gen(rng, profile="py").script()
+            before = rec.counters.get("wrap_contract_evaluations_python", 0)
+            try:
+                PythonCodeGenerator(class_name="M")(prog.build(script))
+            except Exception:
+                continue
+            rec.count("generator_lines_python", rec.counters.get("wrap_contract_evaluations_python", 0) - before)
+            mon.flush(rec, context="generator:G_prog-py")
+            rec.case(["generator-gprog-py", i, shard["seed"]])
+        for i in range(shard.get("nprog", 40) // 3):
+            script = ftn.FGen(rng, memory_bias=rng.random() < 0.5, two_types=rng.random() < 0.3).script()
+            before = rec.counters.get("wrap_contract_evaluations_fortran", 0)
+            try:
+                ftn.generate(prog.build(script), script)
+            except Exception:
+                continue
+            rec.count("generator_lines_fortran", rec.counters.get("wrap_contract_evaluations_fortran", 0) - before)
+            mon.flush(rec, context="generator:G_prog-ftn")
+            rec.case(["generator-gprog-ftn", i, shard["seed"]])
     finally:
         mon.detach()
 
